@@ -65,7 +65,7 @@ def cases(tier, seed):
     for i in range(3 if tier == 'quick' else 12):
         cs.append({'kind': 'ssh199', 'seed': rng.randrange(1 << 30), 'clean': i % 2 == 0})
     # the same servers audited with a protocol option (-2: SSH-2 only; -1 -2 spelled out; -4): what the banner announces is still a finding
-    for i, opts in enumerate([['-2'], ['-1', '-2'], ['-2', '-4']] if tier == 'quick' else [['-2'], ['-1', '-2'], ['-2', '-4'], ['-2'], ['--ssh2'], ['-1']]):
+    for i, opts in enumerate([['-2'], ['-1', '-2'], ['-2', '-4']] if tier == 'quick' else [['-2'], ['-1', '-2'], ['-2', '-4'], ['-2'], ['--ssh2'], ['--ssh1', '--ssh2']]):
         cs.append({'kind': 'ssh199', 'seed': rng.randrange(1 << 30), 'clean': i % 2 == 0, 'opts': opts})
     # two banner findings of different levels at once (SSH-1.99: failure; non-printable character: warning), with failure-free algorithms: the status follows the worse one
     for i in range(2 if tier == 'quick' else 8):
